@@ -369,7 +369,15 @@ pub fn execute(h: &History, want: &str, rep: &mut Report) -> Option<Violation> {
                         n_wraps += 1;
                     }
                     // --- C12: continuity ---
-                    let dphi = circ(cur.k, prev_tick.k) as f64 / TWO24;
+                    // the phase step of this tick: what was observed, but never more than what the frequency in force
+                    // commands (a counter that jumps on its own - e.g. on set_frequency - is a discontinuity, not a step)
+                    let dphi_obs = circ(cur.k, prev_tick.k) as f64 / TWO24;
+                    let dphi_cmd = {
+                        let m = (ideal % TWO24 + TWO24) % TWO24;
+                        // (the f32 rounding of the increment is relative to the unreduced value: it matters for f >> fs)
+                        (m.min(TWO24 - m) + ideal / 8_388_608.0 + 2.0) / TWO24
+                    };
+                    let dphi = dphi_obs.min(dphi_cmd);
                     let ds = (cur.sine as f64 - prev_tick.sine as f64).abs();
                     let dt = (cur.tri as f64 - prev_tick.tri as f64).abs();
                     let bound_s = 2.0 * std::f64::consts::PI * 1.002 * dphi + 2.0 / 8_388_608.0;
